@@ -61,7 +61,14 @@ impl VxMapProof for Option<LargeOctets> {
 // listeners: ChainTrackerEntry, unit persist_tracker).  The contracts of add_block / remove_block are the refusal frame
 // proved in unit tracker ([C13.add.atomic], [C13.remove.atomic]) and a call marker with the exact arguments.
 #[verifier::external_body] pub struct VxTrackerView { _p: u8 }
-#[verifier::external_body] pub struct VxTracker { _p: u8 }
+// (the listener map is visible as a field, so that a body which consults it - e.g. "nothing to store without listeners" - is decided)
+pub struct VxTracker { pub listeners: VxListenersB, pub vx_rest: VxTrackerRest }
+#[verifier::external_body] pub struct VxTrackerRest { _p: u8 }
+#[verifier::external_body] pub struct VxListenersB { _p: u8 }
+impl VxListenersB {
+    #[verifier::external_body] pub fn is_empty(&self) -> bool { unimplemented!() }
+    #[verifier::external_body] pub fn len(&self) -> usize { unimplemented!() }
+}
 pub uninterp spec fn add_block_called(before: VxTrackerView, header: BlockHeader, proof: TxoProof, after: VxTrackerView) -> bool;
 pub uninterp spec fn remove_block_called(before: VxTrackerView, proof: TxoProof, prev: Headers, after: VxTrackerView) -> bool;
 impl VxTracker {
